@@ -340,7 +340,37 @@ func genSeqScript(rng *rand.Rand, prof string, idx, ln int) seqScript {
 	g.cfg = genSeqCfg(rng, prof, idx)
 	sc := seqScript{Cfg: g.cfg}
 	total := int64(0)
+	motifAt := -1
+	if g.cfg.Size == "count" && g.cfg.Expiry != "none" && rng.Intn(2) == 0 && ln > 20 {
+		motifAt = rng.Intn(ln - 10)
+	}
 	for i := 0; i < ln; i++ {
+		if i == motifAt {
+			// motif "full cache, one entry dies early and is looked at before it is swept, then one more arrival": the cache is
+			// exactly full of live entries, so nothing may be lost to size eviction
+			k := g.key()
+			sc.Ops = append(sc.Ops, seqOp{Op: "SetMaximum", M: int64(g.cfg.NK), Ks: []int{}, Supply: []int{}})
+			for j := 0; j < g.cfg.NK; j++ {
+				if j != k {
+					sc.Ops = append(sc.Ops, seqOp{Op: "Set", K: j, V: g.val(), Ks: []int{}, Supply: []int{}})
+				}
+			}
+			sc.Ops = append(sc.Ops, seqOp{Op: "Set", K: k, V: g.val(), Ks: []int{}, Supply: []int{}},
+				seqOp{Op: "SetExpiresAfter", K: k, D: 1, Ks: []int{}, Supply: []int{}},
+				seqOp{Op: "Advance", D: 1, Ks: []int{}, Supply: []int{}})
+			total++
+			switch rng.Intn(4) {
+			case 0:
+				sc.Ops = append(sc.Ops, seqOp{Op: "Compute", K: k, V: g.val(), IfFound: "cancel", IfAbsent: "cancel", Ks: []int{}, Supply: []int{}})
+			case 1:
+				sc.Ops = append(sc.Ops, seqOp{Op: "ComputeIfAbsent", K: k, V: g.val(), IfAbsent: "cancel", Ks: []int{}, Supply: []int{}})
+			case 2:
+				sc.Ops = append(sc.Ops, seqOp{Op: "GetIfPresent", K: k, Ks: []int{}, Supply: []int{}})
+			default:
+				sc.Ops = append(sc.Ops, seqOp{Op: "Invalidate", K: k, Ks: []int{}, Supply: []int{}})
+			}
+			sc.Ops = append(sc.Ops, seqOp{Op: "Set", K: k, V: g.val(), Ks: []int{}, Supply: []int{}})
+		}
 		op := g.genOp()
 		if op.Op == "Advance" {
 			if total+op.D > (int64(1)<<20) {
